@@ -247,6 +247,84 @@ def same_shape(t1, t2):
     return True
 
 
+_HNAME = {}
+
+
+def _hname(production):
+    """Handler function name the live registry assigns to a production."""
+    if not _HNAME:
+        for prod, name, _cfg in fmt_table.registry():
+            _HNAME[prod] = name
+    return _HNAME.get(production)
+
+
+def _chain_lines(c):
+    """A chain `x* -> x x*` (`_concatenate_lists`) / `x* ->` (`_empty_list`) of comment lines
+    (`_comment_line`) as a list of its line nodes; None when `c` is not such a chain."""
+    out = []
+    while True:
+        if isinstance(c, parser_types.Token):
+            return None
+        h = _hname(c.production)
+        if h == "_empty_list" and not c.children:
+            return out
+        if h != "_concatenate_lists" or len(c.children) != 2:
+            return None
+        line = c.children[0]
+        if isinstance(line, parser_types.Token) or _hname(line.production) != "_comment_line" or \
+                len(line.children) != 2:
+            return None
+        out.append(line)
+        c = c.children[1]
+
+
+def _is_blank_line(line):
+    a, b = line.children
+    return (not isinstance(a, parser_types.Token)) and _hname(a.production) == "_empty_string" and \
+        not a.children and isinstance(b, parser_types.Token)
+
+
+def _strip_blank_lines(lines):
+    i, j = 0, len(lines)
+    while i < j and _is_blank_line(lines[i]):
+        i += 1
+    while j > i and _is_blank_line(lines[j - 1]):
+        j -= 1
+    return lines[i:j]
+
+
+def same_shape_blank(t1, t2):
+    """Hypothesis of `C11_idempotent_partial` (`equivC` followed by `EquivB`): as `same_shape`,
+    except that under a node handled by `_eol` and at the head of the node handled by `_module`
+    the chains of comment lines are compared after dropping the blank lines at their two ends
+    (blank = a `_comment_line` node whose `Comment?` is the empty production)."""
+    stack = [(t1, t2)]
+    while stack:
+        a, b = stack.pop()
+        ta, tb = isinstance(a, parser_types.Token), isinstance(b, parser_types.Token)
+        if ta != tb:
+            return False
+        if ta:
+            if not same_shape(a, b):
+                return False
+            continue
+        if a.production != b.production or len(a.children) != len(b.children):
+            return False
+        h = _hname(a.production)
+        pos = 1 if (h == "_eol" and len(a.children) == 2) else 0 if (h == "_module" and a.children) else None
+        if pos is not None:
+            la, lb = _chain_lines(a.children[pos]), _chain_lines(b.children[pos])
+            if la is not None and lb is not None:
+                la, lb = _strip_blank_lines(la), _strip_blank_lines(lb)
+                if len(la) != len(lb):
+                    return False
+                stack.extend(zip(la, lb))
+                stack.extend((x, y) for i, (x, y) in enumerate(zip(a.children, b.children)) if i != pos)
+                continue
+        stack.extend(zip(a.children, b.children))
+    return True
+
+
 def relayout(r, text, toks):
     """The same token sequence laid out differently *within* each line: every indentation character
     doubled (prefix relations between indentations, which is all the tokenizer looks at, are kept),
@@ -322,6 +400,25 @@ def fixed_point_hypothesis(st, tree, out):
     if t2 is None:
         return
     st.bump(st.stats, "fixed_point_theorem_applies" if same_shape(tree2, tree) else "fixed_point_by_oracle_only")
+    # round 3: the weaker hypothesis of C11_idempotent_partial (blank lines at the ends of comment
+    # blocks may differ as well)
+    st.bump(st.stats, "idempotent_theorem_applies" if same_shape_blank(tree, tree2)
+            else "idempotent_by_oracle_only")
+
+
+def classify_retok(ans, want, fmt_agreed, verdict):
+    """What a `RETOK` answer means.  `fmt_agreed`: the `FMT` op of the same case agreed byte for
+    byte (model and real formatter produce the same text); `verdict`: the spec oracle's verdict on
+    the real code (only computed when the answers differ)."""
+    if ans == want:
+        return "applies"
+    if ans == "hyp-fails":
+        return "hyp-fails"
+    if verdict != "ok":
+        return "violation-input"
+    if fmt_agreed:
+        return "tokenizer-model"
+    return "violation-correspondence"
 
 
 # ----------------------------------------------------------------- one case
@@ -436,6 +533,15 @@ def run_text(st, text, widths, origin, with_ir=True):
         ser = serialize(tree, st.pindex)
         if ser is not None:
             st.model_ops.append(("FMT %d %s" % (k, ser), want, text, k))
+            if i == 0 and want != "none":
+                # round 3: C11_retokenize_checked — the model evaluates the theorem's hypotheses on its
+                # rows and answers the token sequence they imply; expected: what the REAL tokenizer
+                # makes of the REAL formatter's output
+                res = tokenizer.tokenize(out_real, "")
+                if not res[1]:
+                    leaves = ",".join("%s:%s" % (t.symbol.encode("utf-8").hex(), t.text.encode("utf-8").hex())
+                                      for t in res[0])
+                    st.model_ops.append(("RETOK %d %s" % (k, ser), "ok " + (leaves or "-"), text, k))
     try:
         format_emb.format_emboss_parse_tree(tree, format_emb.Config(), used)
     except Exception:  # noqa: BLE001  (already reported by the oracle above)
@@ -889,6 +995,13 @@ def run(tier):
                                                   "hypothesis of C11_total / C11_tokens_preserved; search found no "
                                                   "failing input"}, found_input=False)
             model_ok = False
+    if model_ok:
+        # round 3: per-handler probes — the model reproduces the committed probe reference, the
+        # real registry entries are run on the same arguments; functions that were renamed but
+        # reproduce the model's handler of their productions are listed
+        from harness.translate import fmt_probe
+        fmt_probe.verify(chk, common.Model("model_c11"), fmt_table.registry())
+    chk.extra["renamed_handlers"] = dict(fmt_table.RENAMED)
     st = State(chk, tier)
     r = common.rng("C11")
     quick = tier == "quick"
@@ -956,7 +1069,45 @@ def run(tier):
         lines = [op for op, _, _, _ in st.model_ops] + [op for op, _, _ in sops]
         answers = model.ask(lines, timeout=1800)
         dis = 0
+        retok = {"retokenize_ops": 0, "retokenize_theorem_applies": 0, "retokenize_hypothesis_fails": 0,
+                 "retokenize_disagrees": 0, "retokenize_tokenizer_model_differs": 0}
+        fmt_agreed = {}
         for (op, want, text, k), ans in zip(st.model_ops, answers):
+            if op.startswith("FMT "):
+                fmt_agreed[(text, k)] = (ans == want)
+            if op.startswith("RETOK "):
+                retok["retokenize_ops"] += 1
+                verdict = detail = None
+                if ans != want and ans != "hyp-fails":
+                    if retok["retokenize_disagrees"] + retok["retokenize_tokenizer_model_differs"] >= 20:
+                        # enough classified ones (each costs a run of the oracle): count only
+                        retok["retokenize_disagrees_unclassified"] = retok.get("retokenize_disagrees_unclassified", 0) + 1
+                        continue
+                    toks, tree = parse(text)
+                    verdict, detail, _ = spec_check(text, toks, tree, k)
+                cls = classify_retok(ans, want, fmt_agreed.get((text, k), False), verdict)
+                if cls == "applies":
+                    retok["retokenize_theorem_applies"] += 1
+                elif cls == "hyp-fails":
+                    # the hypotheses of the theorem do not hold on the model's rows: no verdict (the
+                    # oracle has re-tokenized the real output anyway)
+                    retok["retokenize_hypothesis_fails"] += 1
+                elif cls == "tokenizer-model":
+                    # same formatted text (the FMT op of this case agreed byte for byte), the property
+                    # holds on the real code, only the tokenizer MODEL cuts the text differently from the
+                    # real tokenizer: C10's check owns that correspondence (and reports it with an input)
+                    retok["retokenize_tokenizer_model_differs"] += 1
+                else:
+                    retok["retokenize_disagrees"] += 1
+                    dis += 1
+                    if dis <= 5:
+                        chk.violation("input" if cls == "violation-input" else "correspondence", {
+                            "input": text, "indent_width": k, "model": ans[:400], "observed": want[:400],
+                            "oracle_on_real_code": "%s: %s" % (verdict, detail),
+                            "theorem_or_correspondence": "model_c11 RETOK (retokTree: C11_retokenize_checked) vs "
+                                                         "tokenizer.tokenize(format_emboss_parse_tree(...))"},
+                            found_input=(cls == "violation-input"))
+                continue
             if ans != want:
                 dis += 1
                 if dis <= 5:
@@ -987,7 +1138,8 @@ def run(tier):
                         found_input=False)
         chk.extra["t_model_s"] = round(time.time() - t1, 1)
         chk.extra["traces_validated_against_impl"] = len(lines)
-        chk.extra["fmt_ops"] = len(st.model_ops)
+        chk.extra["fmt_ops"] = len(st.model_ops) - retok["retokenize_ops"]
+        chk.extra["retokenize"] = retok
         chk.extra["sanity_ops"] = len(sops)
         chk.extra["sanity_answers"] = {a: sum(1 for _, w, _ in sops if w.split()[0] == a)
                                        for a in sorted(set(w.split()[0] for _, w, _ in sops))}
